@@ -2,7 +2,8 @@
    The site-by-site sampler assigns to an outcome p at a site the weight ||step v s p||^2; for a right-canonical remainder of
    the chain (the form the simulator maintains) these weights add up to the weight of what has been fixed so far, and that
    weight is the total Born weight of ALL completions of the partial outcome — for every length, bond dimension and physical
-   dimension, over any commutative ring with an involution.  PARTIAL: the basis rotation (X/Y), that Generator.choice draws
+   dimension, over any commutative ring with an involution; measuring in a rotated local basis (X/Y) rotates the site tensor by a
+   matrix with orthonormal columns, which keeps it right-isometric, so the same holds there.  PARTIAL: that Generator.choice draws
    according to the vector it is given and never an entry of probability zero, and the in-place measure() are tied
    numerically (all branches forced), not mechanised. *)
 From Coq Require Import List Arith Ring.
@@ -24,6 +25,15 @@ Theorem C12_prefix_weight_is_born_weight : forall (K : Type) (k0 k1 : K) (kadd k
   total K k0 kadd kmul cj chi_end ss v = nrm2 K k0 kadd kmul cj (first_chi K chi_end ss) v.
 Proof. exact completions_weight. Qed.
 Print Assumptions C12_prefix_weight_is_born_weight.
+
+Theorem C12_rotated_basis_weights_sum : forall (K : Type) (k0 k1 : K) (kadd kmul ksub : K -> K -> K) (kopp : K -> K) (cj : K -> K),
+  ring_theory k0 k1 kadd kmul ksub kopp (@eq K) -> (forall a b, cj (kadd a b) = kadd (cj a) (cj b)) ->
+  (forall a b, cj (kmul a b) = kmul (cj a) (cj b)) -> cj k0 = k0 ->
+  forall u s v, (forall q q', q < d K s -> q' < d K s -> bsum K k0 kadd (d K s) (fun p => kmul (u p q) (cj (u p q'))) = if Nat.eqb q q' then k1 else k0) ->
+  right_iso K k0 k1 kadd kmul cj s ->
+  bsum K k0 kadd (d K s) (fun p => nrm2 K k0 kadd kmul cj (chiR K s) (step K k0 kadd kmul v (rotate K k0 kadd kmul u s) p)) = nrm2 K k0 kadd kmul cj (chiL K s) v.
+Proof. exact rotated_outcome_weights_sum. Qed.
+Print Assumptions C12_rotated_basis_weights_sum.
 
 (* keys: bit i of the integer is the outcome of qubit i; distinct outcome strings get distinct keys *)
 Theorem C12_bit_encoding : forall l, binary l -> forall i, i < length l -> (encode l / 2 ^ i) mod 2 = nth i l 0.
